@@ -39,6 +39,9 @@ def pipe_part(ctx):
     conc = lib.run_go(ctx, "multiplex", "TestVerifC14Concurrent", timeout=600)
     lib.collect_go(ctx, conc)
     ctx.log("concurrent senders on one stream: %d datagrams received, %d violations" % (conc["stats"].get("datagrams_received", 0), len(conc.get("violations", []))))
+    deep = lib.run_go(ctx, "multiplex", "TestVerifC14DeepBacklog", timeout=900, tag="deep_backlog")
+    lib.collect_go(ctx, deep)
+    ctx.log("deep datagram backlogs (consumer away): %d datagrams, %d violations" % (deep["stats"].get("deep_datagrams", 0), len(deep.get("violations", []))))
     rf = lib.run_go(ctx, "multiplex", "TestVerifC14ReadFrom", timeout=900)
     lib.collect_go(ctx, rf)
     ctx.log("ReadFrom relay (sizes up to the per-frame maximum, then concurrent streams): %d datagrams received, %d violations"
